@@ -424,6 +424,13 @@ pub struct Base {
     pub top_layer: Option<usize>,
 }
 
+pub struct Held(pub Box<dyn vfs::SeekAndWrite + Send>);
+impl std::fmt::Debug for Held {
+    fn fmt(&self, f: &mut std::fmt::Formatter<'_>) -> std::fmt::Result {
+        f.write_str("<write handle>")
+    }
+}
+
 #[derive(Debug)]
 pub struct Built {
     pub cfg: Cfg,
@@ -434,6 +441,9 @@ pub struct Built {
     pub alt_underlying: Option<VfsPath>,
     /// the first MemoryFS instance of the stack (for calls on the `FileSystem` trait itself)
     pub mem_fs: Option<SharedFs>,
+    /// a write handle kept open across calls (session steps of the tree space) and the bytes
+    /// that describe it for the state key (path, mode, buffer)
+    pub held: std::sync::Mutex<Option<(Held, Vec<u8>)>>,
     _scratch: Vec<Scratch>,
 }
 
@@ -597,6 +607,7 @@ pub fn build_opts(cfg: &Cfg, order: Order, init: &Init, sentinels: bool) -> Buil
         ctl,
         alt_underlying: b.alt_underlying,
         mem_fs: b.mem_fs,
+        held: std::sync::Mutex::new(None),
         _scratch: b.scratch,
     };
     for (bi, entries) in init {
